@@ -158,6 +158,12 @@ func runC17(ctx *Ctx) {
 						if strings.HasPrefix(f.Name, "path:") && mi%2 == 1 {
 							pageURL += "/" // the same page, addressed with a trailing slash
 						}
+						if !bare && k == 1 && mi%3 == 2 {
+							// page 1 addressed without the page parameter: the links (2 … N) still all
+							// follow the pattern, so this is inside the property
+							pageURL = f.Bare
+							rep.hist("first-page-addressed-without-parameter")
+						}
 						page, _ := nurl.ParseRequestURI(pageURL)
 						replay := map[string]interface{}{"page_url": pageURL, "html": src, "family": f.Name, "first_page_bare": bare, "n": n, "k": k, "markup": m.String()}
 						cell := map[string]string{"family": f.Name, "bare": b01(bare), "n": fmt.Sprint(n), "k": fmt.Sprint(k)}
